@@ -19,6 +19,7 @@ EXPLANATION = (
     "used; the supplied dictexporter/dictimporter is used when given, a default DictExporter()/DictImporter() otherwise; "
     "the exported node / parsed data is passed unchanged. Not decided: value fidelity of json itself and of the dict "
     "round trip (C10)."
+    " Added in round 16: J2 the children loop of DictImporter imports every entry (same clause as C10 X5)."
 )
 ASSUMPTIONS = ["json.dumps/json.dump and json.loads/json.load agree with each other for the same keyword options"]
 JE = "anytree/exporter/jsonexporter.py"
@@ -254,14 +255,24 @@ def run(ctx):
         st = [n for n in walk_own(_exp.node) if isinstance(n, ast.Assign) and isinstance(n.targets[0], ast.Attribute)
               and norm(n.targets[0]) == "%s.maxlevel" % de]
         ok = False
+        from .common import reaching_def_nodes
+
+        def _val(e_, at_):
+            """text of the value: a local whose only reaching binding is `x = self.maxlevel` stands for self.maxlevel"""
+            if isinstance(e_, ast.Name):
+                ds_ = reaching_def_nodes(at_, e_.id)
+                if ds_ and len(ds_) == 1:
+                    return norm(ds_[0].ast.value)
+            return norm(e_)
         for s_ in st:
-            if norm(s_.value) != "self.maxlevel":
-                continue
             for cn in cfg.nodes_of(s_):
+                if _val(s_.value, cn) != "self.maxlevel":
+                    continue
                 gs = cfg.guards_of(cn)
                 if len(gs) == 1:
                     nt = none_test(gs[0][0])
-                    if nt is not None and nt[0] == "self.maxlevel" and (nt[1] is False) == (gs[0][1] is True):
+                    subj = gs[0][0].left if isinstance(gs[0][0], ast.Compare) else None
+                    if nt is not None and subj is not None and _val(subj, gs[0][2]) == "self.maxlevel" and (nt[1] is False) == (gs[0][1] is True):
                         ok = True
         if ok:
             ctx.inst("J3", _exp, st[0], "maxlevel forwarded to the dict exporter when it is not None")
